@@ -13,8 +13,10 @@
  3. GetArbitersMajorityCount / HasArbitersMajorityCount of the real Arbiters
     for every n <= 100.
 """
-import os, json, concurrent.futures
+import sys, os, json, concurrent.futures
 import vf
+sys.path.insert(0, os.path.dirname(os.path.abspath(__file__)))
+from cons_helpers import JVM_FAST, verdict_first
 
 META = dict(
     text="TLC enumerates the decision table of the confirmation checks (Confirm.tla: arbiter sets of size 1..12 with "
@@ -47,8 +49,6 @@ CHECK_DEADLOCK FALSE
 """
 
 
-# short single-worker TLC runs on a busy machine: no parallel GC threads, C1 only
-JVM_FAST = ("-XX:-UseParallelGC", "-XX:+UseSerialGC", "-XX:TieredStopAtLevel=1")
 
 
 def cfg(ns, abn=1, bad=1, shapes="all", sponsors="all", badsigners="all", arith=(), mod=1):
@@ -95,7 +95,7 @@ def run(chk):
     path = os.path.join(vf.scratch(), "c25-cases.jsonl")
     vf.write_json_lines(path, allb)
     recs, _ = vf.run_driver(binary, ["replay", path], timeout=3000)
-    chk.absorb(recs, "replay of %d cases" % len(allb))
+    chk.absorb(verdict_first(chk, recs), "replay of %d cases" % len(allb))
 
     # binding self-test: an accepted case whose expectation is corrupted to
     # "not legitimate" must be reported
